@@ -9,7 +9,8 @@ open Lp Lp.C11
     c11.nm   <ftol> <mpts> <row>… <prog>       minimize(pp, func)
     c11.nmd  <ftol> <start> <deltas> <prog>    minimize(start, deltas, func)
     c11.nm1  <ftol> <start> <delta> <prog>     minimize(start, delta, func)
-    c11.nmseq <ftol> <n> (nm <mpts> <row>… <prog> | nmd <start> <deltas> <prog> | nm1 <start> <delta> <prog>)…
+    c11.nmseq <ftol> <n> (nm <mpts> <row>… <prog> | nmd <start> <deltas> <prog> | nm1 <start> <delta> <prog>
+                           | rs <prog> | rsd <deltas> <prog> | rs1 <delta> <prog>   (argument = the object's own simplex / its row 0))…
                                                the runs on ONE Minimization object; answers joined by ` | `
 
     Answers: 1-D  `ok xmin fmin stopbits ntrace (x bits)…`;  n-D `ok stopbits ndim pmin… fmin nfunc mpts y… rows… ntrace (pt… bits)…`
@@ -72,16 +73,19 @@ def showN (r : Option (OutN × List EvN)) (fdef : Pt → Option Rat) : String :=
 
 /-- one member of an object-reuse sequence: overload tag, its simplex (the documented one for the
     delta overloads; `[]` = undefined request), the objective program -/
-def pMember : P (List Pt × List Tok) := do
+def pMember : P (Arg × List Tok) := do
   let k ← tok
   match k with
-  | "nm" => do let pp ← pList pRats; let pr ← pProg; pure (pp, pr)
+  | "nm" => do let pp ← pList pRats; let pr ← pProg; pure (.simplex pp, pr)
   | "nmd" => do
       let st ← pRats; let ds ← pRats; let pr ← pProg
-      pure (if ds.length < st.length then [] else simplexOf rndD st ds, pr)
+      pure (.simplex (if ds.length < st.length then [] else simplexOf rndD st ds), pr)
   | "nm1" => do
       let st ← pRats; let d ← pRat; let pr ← pProg
-      pure (simplexOf rndD st (List.replicate st.length d), pr)
+      pure (.simplex (simplexOf rndD st (List.replicate st.length d)), pr)
+  | "rs" => do let pr ← pProg; pure (.own, pr)                       -- m.minimize(m.current_simplex, f)
+  | "rsd" => do let ds ← pRats; let pr ← pProg; pure (.ownDeltas ds, pr)   -- m.minimize(m.current_simplex[0], deltas, f)
+  | "rs1" => do let d ← pRat; let pr ← pProg; pure (.ownDelta d, pr)       -- m.minimize(m.current_simplex[0], delta, f)
   | _ => failure
 
 def handle : Handler := fun op args =>
@@ -114,9 +118,9 @@ def handle : Handler := fun op args =>
   | "c11.nmseq" =>
     withArgs (do let ftol ← pRat; let ms ← pList pMember; pure (ftol, ms)) args
       fun (ftol, ms) =>
-        let runs : List ((Pt → Rat) × List Pt) := ms.map (fun m => ((fun x => (evalRPN rndD m.2 x).getD 0), m.1))
+        let runs : List ((Pt → Rat) × Arg) := ms.map (fun m => ((fun x => (evalRPN rndD m.2 x).getD 0), m.1))
         let obj0 : NM := { p := [], y := [], psum := [], nfunc := 0 }
-        let rs := nmSeqOn rndD ftol (NMAX + 2) obj0 runs
+        let rs := nmSeqArgs rndD ftol (NMAX + 2) obj0 runs
         "ok " ++ " | ".intercalate ((rs.zip ms).map (fun rm => showN rm.1 (fun x => evalRPN rndD rm.2.2 x)))
   | "c11.rnd" => withArgs pRat args fun x => "ok " ++ showQ (rndD x)
   | _ => none
